@@ -18,7 +18,11 @@ let str_tok t = explode (hexdecode (String.sub t 1 (String.length t - 1)))
 let split c s = String.split_on_char c s
 
 (* slot table: slot -> object id (None: empty), kept beside the model state *)
-type st = { mutable model : state; mutable slots : int option array }
+type st = { mutable model : state; mutable slots : int option array;
+            (* residues of the history, for the state-class signature (selection of start states only) *)
+            mutable dirty : int list;      (* variables one of whose equivalents was destroyed, no equivalence edit since *)
+            mutable orphaned : int list;   (* objects whose parent was destroyed *)
+            mutable emptied : bool; mutable moved : bool; mutable nbad : int }
 
 let id_of_slot g t : nat option option =
   (* Some None = null; None = unusable (empty / no such slot) *)
@@ -89,6 +93,28 @@ let parse_op g (line : string) : op =
   | "setvariable" -> need 2; SetResetVariable (recv g a.(1), oarg g a.(2))
   | "settestvariable" -> need 2; SetResetTestVariable (recv g a.(1), oarg g a.(2))
   | "release" -> need 1; Release (recv g a.(1))
+  | "containscomponent_n" -> need 2; Query (QContainsComponentName (recv g a.(1), str_tok a.(2), optb a 3))
+  | "containscomponent_p" -> need 2; Query (QContainsComponentPtr (recv g a.(1), oarg g a.(2), optb a 3))
+  | "component_i" -> need 2; Query (QComponentIdx (recv g a.(1), idx a.(2)))
+  | "component_n" -> need 2; Query (QComponentName (recv g a.(1), str_tok a.(2), optb a 3))
+  | "hasvariable_n" -> need 2; Query (QHasVariableName (recv g a.(1), str_tok a.(2)))
+  | "hasvariable_p" -> need 2; Query (QHasVariablePtr (recv g a.(1), oarg g a.(2)))
+  | "variable_i" -> need 2; Query (QVariableIdx (recv g a.(1), idx a.(2)))
+  | "variable_n" -> need 2; Query (QVariableName (recv g a.(1), str_tok a.(2)))
+  | "hasreset" -> need 2; Query (QHasReset (recv g a.(1), oarg g a.(2)))
+  | "reset_i" -> need 2; Query (QResetIdx (recv g a.(1), idx a.(2)))
+  | "hasunits_n" -> need 2; Query (QHasUnitsName (recv g a.(1), str_tok a.(2)))
+  | "hasunits_p" -> need 2; Query (QHasUnitsPtr (recv g a.(1), oarg g a.(2)))
+  | "units_i" -> need 2; Query (QUnitsIdx (recv g a.(1), idx a.(2)))
+  | "units_n" -> need 2; Query (QUnitsName (recv g a.(1), str_tok a.(2)))
+  | "hasequivalentvariable" -> need 2; Query (QHasEquivalentVariable (recv g a.(1), oarg g a.(2), if n > 3 then boolean a.(3) else false))
+  | "equivalentvariable" -> need 2; Query (QEquivalentVariable (recv g a.(1), idx a.(2)))
+  | "parent" -> need 1; Query (QParent (recv g a.(1)))
+  | "hasparent" -> need 1; Query (QHasParent (recv g a.(1)))
+  | "hasancestor" -> need 2; Query (QHasAncestor (recv g a.(1), oarg g a.(2)))
+  | "getunits" -> need 1; Query (QGetUnits (recv g a.(1)))
+  | "getvariable" -> need 1; Query (QGetVariable (recv g a.(1)))
+  | "testvariable" -> need 1; Query (QGetTestVariable (recv g a.(1)))
   | _ -> raise (Bad "command")
 
 let release_slot g line =
@@ -186,17 +212,64 @@ let () =
      done
    with End_of_file -> ());
   let n = List.length uni in
-  let fresh () = { model = init uni; slots = Array.init n (fun i -> Some i) } in
-  let cache : (string, state * int option array) Hashtbl.t = Hashtbl.create 16 in
+  let fresh () = { model = init uni; slots = Array.init n (fun i -> Some i); dirty = []; orphaned = []; emptied = false; moved = false; nbad = 0 } in
+  let cache : (string, st) Hashtbl.t = Hashtbl.create 16 in
+  let copy g = { g with slots = Array.copy g.slots } in
+  let nobj = n in
+  let track g o s0 s1 =
+    let ids = List.init nobj (fun i -> i) in
+    let ob s i = getd s (nat_of_int i) in
+    let is_alive s i = alive s (nat_of_int i) in
+    let eq_op, touched = match o with
+      | AddEquivalence (a, b) | AddEquivalence4 (a, b) | RemoveEquivalence (a, b) ->
+          true, List.filter_map (fun x -> match x with Some v -> Some (int_of_nat v) | None -> None) [a; b]
+      | RemoveAllEquivalences v -> true, int_of_nat v :: List.map int_of_nat (ob s0 (int_of_nat v)).o_eqs
+      | _ -> false, [] in
+    if eq_op then g.dirty <- List.filter (fun x -> not (List.mem x touched)) g.dirty;
+    List.iter (fun x ->
+      let o0 = ob s0 x and o1 = ob s1 x in
+      if not eq_op && List.exists (fun e -> not (List.mem e o1.o_eqs)) o0.o_eqs && is_alive s1 x && not (List.mem x g.dirty)
+      then g.dirty <- x :: g.dirty;
+      (match o0.o_parent, o1.o_parent with
+       | Some p, None -> if not (is_alive s1 (int_of_nat p)) && not (List.mem x g.orphaned) then g.orphaned <- x :: g.orphaned
+       | Some p, Some q -> if p <> q then g.moved <- true
+       | None, Some _ -> g.orphaned <- List.filter (fun y -> y <> x) g.orphaned
+       | None, None -> ())) ids;
+    (match o with
+     | RemoveAllComponents k -> if (ob s0 (int_of_nat k)).o_comps <> [] then g.emptied <- true
+     | RemoveAllVariables k -> if (ob s0 (int_of_nat k)).o_vars <> [] then g.emptied <- true
+     | RemoveAllResets k -> if (ob s0 (int_of_nat k)).o_resets <> [] then g.emptied <- true
+     | RemoveAllUnits k -> if (ob s0 (int_of_nat k)).o_units <> [] then g.emptied <- true
+     | _ -> ()) in
+  let signature g =
+    let s = g.model in
+    let held = List.filter_map (fun v -> v) (Array.to_list g.slots) in
+    let ob i = getd s (nat_of_int i) in
+    let has p = if List.exists p held then '1' else '0' in
+    let orph k = has (fun x -> (ob x).o_kind = k && List.mem x g.orphaned && (ob x).o_parent = None) in
+    let noparent v = (getd s v).o_parent = None in
+    String.init 12 (fun i -> match i with
+      | 0 -> has (fun x -> List.mem x g.dirty)
+      | 1 -> orph KComp | 2 -> orph KVar | 3 -> orph KUnits | 4 -> orph KReset
+      | 5 -> has (fun x -> match (ob x).o_rvar with Some v -> (ob x).o_kind = KReset && noparent v | None -> false)
+      | 6 -> has (fun x -> match (ob x).o_vunits with Some u -> noparent u | None -> false)
+      | 7 -> has (fun x -> match (ob x).o_vunits with Some u -> List.mem (int_of_nat u) g.orphaned | None -> false)
+      | 8 -> if g.emptied then '1' else '0'
+      | 9 -> if g.moved then '1' else '0'
+      | 10 -> let live = List.map int_of_nat (reach_set s) in
+              if List.exists (fun i -> not (List.mem i held)) live then '1' else '0'
+      | _ -> has (fun x -> (ob x).o_kind = KVar && (ob x).o_eqs <> [])) in
   (* one op: returns the ret text, or None when the model says the call does not return *)
   let exec g line =
     match (try Some (parse_op g line) with Bad _ -> None) with
     | None -> Some ("ERR", false)
     | Some o ->
         let carve = readds g.model o in
+        if bad_arg fixed seq_conc g.model o then g.nbad <- g.nbad + 1;
         (match step_conc fixed g.model o with
          | Crash -> None
          | Ok (s', r) ->
+             track g o g.model s';
              g.model <- s';
              release_slot g line;
              Some (ret_text g r, carve))
@@ -220,11 +293,12 @@ let () =
          if nsetup = 0 then fresh ()
          else
            match Hashtbl.find_opt cache key with
-           | Some (m, sl) -> { model = m; slots = Array.copy sl }
+           | Some g0 -> copy g0
            | None ->
                let g = fresh () in
                List.iter (fun l -> ignore (exec g l)) setup;
-               Hashtbl.replace cache key (g.model, Array.copy g.slots);
+               g.nbad <- 0;
+               Hashtbl.replace cache key (copy g);
                g in
        let out = Buffer.create 256 in
        let rets = Buffer.create 64 in
@@ -251,11 +325,11 @@ let () =
                incr k) rest;
        if !crashed && full then print_string (Buffer.contents out ^ (if !k > 0 then " ;; " else "") ^ "CRASH\n")
        else if !crashed then
-         Printf.printf "%s%sCRASH carve=%s %016x\n" (Buffer.contents rets) (if !k > 0 then "," else "")
-           (if !carve_at < 0 then "-" else string_of_int !carve_at) !h
+         Printf.printf "%s%sCRASH carve=%s %016x cls=%s bad=%d\n" (Buffer.contents rets) (if !k > 0 then "," else "")
+           (if !carve_at < 0 then "-" else string_of_int !carve_at) !h (signature g) g.nbad
        else if full then print_string (Buffer.contents out ^ "\n")
-       else Printf.printf "%s carve=%s %016x\n" (Buffer.contents rets)
-              (if !carve_at < 0 then "-" else string_of_int !carve_at) !h
+       else Printf.printf "%s carve=%s %016x cls=%s bad=%d\n" (Buffer.contents rets)
+              (if !carve_at < 0 then "-" else string_of_int !carve_at) !h (signature g) g.nbad
      done
    with End_of_file -> ());
   close_in ic
